@@ -39,6 +39,9 @@ func (c C09Case) Brief() any {
 	for i, o := range c.Ops {
 		names[i] = opNames[o]
 	}
+	if len(names) > 60 {
+		names = append(append(append([]string{}, names[:12]...), fmt.Sprintf("... (%d steps in all) ...", len(names))), names[len(names)-12:]...)
+	}
 	return map[string]any{"A": c.A, "B": c.B, "invalid": c.Invalid, "start_from_zero_value": c.Zero, "ops": names}
 }
 
@@ -189,6 +192,9 @@ func c09RunHistory(c *C09Case, suite []Req, ref [6][]string, rec *Recorder) *Dis
 			for _, o := range c.Ops[:step] {
 				hist = append(hist, opNames[o])
 			}
+			if len(hist) > 40 {
+				hist = append(append(append([]string{}, hist[:12]...), fmt.Sprintf("... (%d steps in all, see the replay file) ...", len(hist))), hist[len(hist)-12:]...)
+			}
 			start := "NewMiddleware(A)"
 			if c.Zero {
 				start = "zero value"
@@ -209,6 +215,9 @@ func c09RunHistory(c *C09Case, suite []Req, ref [6][]string, rec *Recorder) *Dis
 			return discf("step %d %s: %v", i, opNames[op], err)
 		}
 		s = s.step(op)
+		if !c09Observed(i+1, len(c.Ops)) {
+			continue
+		}
 		if d := check(i+1, "after "+opNames[op]); d != nil {
 			return d
 		}
@@ -302,7 +311,46 @@ func c09Gen(t *rapid.T) C09Case {
 	for i := 0; i < n; i++ {
 		c.Ops = append(c.Ops, uniform(t, "op", nOps))
 	}
+	if chance(t, "longhistory", 8) {
+		// a LONG history: a short drawn block repeated until the history has 70-1030 steps (lengths around 2^7, 2^8,
+		// 2^9, 2^10: counters of calls, generations, revisions ... wrap or cross thresholds there), then the drawn tail
+		c.Ops = append(c09LongPrefix(t, pick(t, "longlen", []int{70, 127, 130, 255, 258, 300, 515, 1030})), c.Ops...)
+	} else if chance(t, "hugehistory", 1) && chance(t, "hugehistory2", 40) {
+		// 2^16 and a bit: state is observed around every power of two and every 997th step only (see c09Observed)
+		c.Ops = append(c09LongPrefix(t, 65540), c.Ops...)
+	}
 	return c
+}
+
+func c09LongPrefix(t *rapid.T, target int) []int {
+	var block []int
+	for i, n := 0, intIn(t, "blocklen", 1, 4); i < n; i++ {
+		// mostly successful reconfigurations: they are what such counters count
+		if chance(t, "blockreconf", 70) {
+			block = append(block, pick(t, "blockop", []int{opReconfA, opReconfB, opReconfA, opReconfB, opReconfNil}))
+		} else {
+			block = append(block, uniform(t, "blockany", nOps))
+		}
+	}
+	var out []int
+	for len(out) < target {
+		out = append(out, block...)
+	}
+	return out
+}
+
+// c09Observed: in histories of more than 1100 steps the state is observed only near powers of two, every 997th
+// step and over the last 30 steps; shorter histories are observed after every step.
+func c09Observed(step, total int) bool {
+	if total <= 1100 || step >= total-30 || step%997 == 0 {
+		return true
+	}
+	for d := -2; d <= 2; d++ {
+		if x := step + d; x > 0 && x&(x-1) == 0 {
+			return true
+		}
+	}
+	return false
 }
 
 func c09Check(c C09Case, rec *Recorder) *Disc {
@@ -343,7 +391,7 @@ func c09Check(c C09Case, rec *Recorder) *Disc {
 
 func TestC09(t *testing.T) {
 	Prop[C09Case]{ID: "C09", Gen: c09Gen, Check: c09Check,
-		Rule: "generator: two drawn valid configurations A, B, one invalid configuration, start in {NewMiddleware(A), zero value}, history of 1-24 operations over {SetDebug(true), SetDebug(false), Reconfigure(nil), Reconfigure(A), Reconfigure(B), Reconfigure(invalid)}. " +
+		Rule: "generator: two drawn valid configurations A, B, one invalid configuration, start in {NewMiddleware(A), zero value}, history of 1-24 operations over {SetDebug(true), SetDebug(false), Reconfigure(nil), Reconfigure(A), Reconfigure(B), Reconfigure(invalid)}, in 8% of the cases preceded by a drawn block of 1-4 operations (mostly successful reconfigurations) repeated up to 70-1030 steps, and rarely up to 65540 steps (then observed near every power of two, every 997th step and over the last 30 steps). " +
 			"Oracle: after creation and after every step, the answers to a probe suite (non-CORS, actual, succeeding and failing preflights for A and B) and Config()==nil equal those of a FRESH middleware in the state the documented state machine predicts; " +
 			"second half on the full suites of A and B: debug on vs off identical for non-preflights; successful preflights identical except ACAH may become the full configured list; failing preflights may only change status to the success status and gain preflight headers, never on the origin-failure path. " +
 			"non-trivial history = SetDebug(true) on a passthrough followed later by a successful Reconfigure, or a failed Reconfigure while debug is on, or >=2 transitions to/from passthrough; distinct by (start, ops, A, B).",
